@@ -442,4 +442,74 @@ std::string RunSave(const JVal& scn)
 	return "{\"mem\":" + BytesJson(out[0]) + ",\"stream\":" + BytesJson(out[1]) + ",\"excmem\":" + exc[0] + ",\"excstream\":" + exc[1] + "}";
 }
 
+
+//-----------------------------------------------------------------------------
+// Fault enumeration (C20): the same scenario with one fault injected at a chosen point.
+//   kind "probe"  : fault-free run that reports the number of fault points of each kind
+//   kind "alloc"  : the k-th operator new during the call throws std::bad_alloc
+//   kind "failat" / "throwat" : the input stream buffer reports EOF / throws when byte k is requested
+//   kind "ofailat" / "othrowat" (save): the output stream buffer fails / throws when byte k is written
+// Requires vh_alloc.h in the harness translation unit.
+//-----------------------------------------------------------------------------
+#ifdef VH_WITH_ALLOC
+template <class TArchive>
+std::string RunFault(const JVal& scn, const std::string& doc, const std::string& kind, long long k)
+{
+	Log log;
+	log.ev.reserve(1 << 16);
+	std::string exc;
+	exc.reserve(1 << 12);
+	exc = "[\"none\"]";
+	const auto options = OptionsFrom(scn);
+	const JVal& root = scn["root"];
+	const std::string rk = root["k"].GetString();
+	const bool isSave = scn.HasMember("save") && scn["save"].GetBool();
+	TerminateContext() = std::string(scn["id"].GetString()) + "/" + kind + "/" + std::to_string(k);
+	long long liveBefore = 0, liveAfter = 0, allocsInCall = 0;
+	bool streamBad = false;
+	size_t produced = 0, faultHits = 0;
+	{
+		std::unique_ptr<FailingOutBuf> obuf;
+		std::unique_ptr<std::ostream> ostr;
+		StreamHolder holder;
+		std::string outMem;
+		outMem.reserve(1 << 16);
+		const bool streamIn = kind == "failat" || kind == "throwat" || (kind == "probe" && !isSave && scn.HasMember("stream") && scn["stream"].GetBool()) || (kind == "alloc" && !isSave && scn.HasMember("stream") && scn["stream"].GetBool());
+		const bool streamOut = kind == "ofailat" || kind == "othrowat" || (isSave && scn.HasMember("stream") && scn["stream"].GetBool());
+		if (!isSave && streamIn) holder = MakeStream(kind == "failat" || kind == "throwat" ? kind : "short3", doc, static_cast<size_t>(k));
+		if (isSave && streamOut) { obuf = std::make_unique<FailingOutBuf>(kind == "ofailat" || kind == "othrowat" ? static_cast<size_t>(k) : static_cast<size_t>(-1), kind == "othrowat"); ostr = std::make_unique<std::ostream>(obuf.get()); }
+		liveBefore = AllocLive();
+		AllocArm(kind == "alloc" ? k : -1);
+		try
+		{
+			auto call = [&](auto& value) {
+				if (isSave) { if (streamOut) BitSerializer::SaveObject<TArchive>(value, *ostr, options); else BitSerializer::SaveObject<TArchive>(value, outMem, options); }
+				else { if (streamIn) BitSerializer::LoadObject<TArchive>(value, holder.get(), options); else BitSerializer::LoadObject<TArchive>(value, doc, options); }
+			};
+			if (rk == "obj") { ScriptObj o{ &root["ops"], &log }; call(o); }
+			else if (rk == "arr") { ScriptArr a{ &root["ops"], &log, static_cast<size_t>(root["ops"].Size()) }; call(a); }
+			else {
+				WithType(root["t"].GetString(), [&](auto* tag) {
+					using T = std::remove_pointer_t<decltype(tag)>;
+					T value = Prior<T>();
+					if (isSave) FromCanon(root["v"], value);
+					call(value);
+				});
+			}
+			allocsInCall = AllocSinceArm();
+			AllocDisarm();
+		}
+		catch (...) { allocsInCall = AllocSinceArm(); AllocDisarm(); exc = DescribeException(); }
+		liveAfter = AllocLive();
+		if (ostr) { streamBad = ostr->fail(); produced = obuf->data.size(); faultHits = obuf->failHits; }
+		else if (isSave) produced = outMem.size();
+		if (holder.scripted) faultHits = holder.scripted->failHits;
+		if (holder.stream) streamBad = holder.stream->bad();
+	}
+	return "{\"kind\":\"" + kind + "\",\"k\":" + std::to_string(k) + ",\"save\":" + (isSave ? "true" : "false") + ",\"exc\":" + exc +
+		",\"leak\":" + std::to_string(liveAfter - liveBefore) + ",\"allocs\":" + std::to_string(allocsInCall) + ",\"produced\":" + std::to_string(produced) +
+		",\"hits\":" + std::to_string(faultHits) + ",\"streambad\":" + (streamBad ? "true" : "false") + ",\"peak\":" + std::to_string(Alloc().peakReq) + "}";
+}
+#endif
+
 }  // namespace vh
